@@ -1435,7 +1435,8 @@ func (cx *evalCtx) pureCall(fn *ssa.Function, args []TV) (TV, error) {
 			vals[i] = a
 		}
 		switch fn.String() {
-		case "bytes.HasPrefix", "bytes.Equal", "bytes.Compare", "github.com/tikv/client-go/v2/kv.CmpKey", "github.com/tikv/client-go/v2/kv.NextKey":
+		case "bytes.HasPrefix", "bytes.Equal", "bytes.Compare", "github.com/tikv/client-go/v2/kv.CmpKey", "github.com/tikv/client-go/v2/kv.NextKey",
+			"errors.Is", "github.com/pkg/errors.Is", "github.com/pingcap/errors.Is":
 			if res, ok := cx.fr.nativeCallVals(cx.st, fn, vals, fn.Signature); ok {
 				return r.toTV(cx.st, res, fn.Signature.Results().At(0).Type()), nil
 			}
